@@ -1362,8 +1362,10 @@ def norm_segments(sx, ctx, segs, digit=None, strarg=None):
     for sg in segs:
         kind = sg[0]
         if kind == 'loop':
-            out.append(('unsummarised-loop',))
-            continue
+            # an emission loop the summariser does not understand (pointer-to-end walk, helper with its own loop form ...): what it
+            # emits is unknown, so no layout verdict can be given
+            raise AnalysisBroken('an emission loop of %s (%s) is of a form the layout extraction does not summarise'
+                                 % (sg[1] if len(sg) > 1 else '?', sg[2] if len(sg) > 2 else '?'))
         cnt = sg[2] if kind != 'call' else sg[2]
         if not ctx.test('sge', cnt, 1, '%r >= 1' % cnt):
             if ctx.test('sle', cnt, 0) and not ctx.eq(cnt, 0):
